@@ -101,6 +101,11 @@ where
         author: &VerifyingKey,
         logs: &[L],
     ) -> Result<Option<BTreeMap<L, SeqNum>>, Self::Error> {
+        // Nothing to query for an empty set of logs.
+        if logs.is_empty() {
+            return Ok(None);
+        }
+
         let mut encoded_log_ids = Vec::new();
         for log in logs {
             let encoded_log_id =
